@@ -112,7 +112,7 @@ def cname(afi: int, ctype: int) -> str:
 
 def plan(tier, seed):
     if tier == 'quick':
-        return [{'shard': i, 'enc': 260, 'dec': 260} for i in range(16)]
+        return [{'shard': i, 'enc': 900, 'dec': 900} for i in range(16)]
     return [{'shard': i, 'enc': 6300, 'dec': 6300} for i in range(64)]
 
 
